@@ -101,8 +101,16 @@ def verify(interp, target, timeout_ms=10000, verbose=False, only=None):
             # vacuity guard per obligation: the assumptions it was proved under must be satisfiable
             if smt.satisfiable(pc, 3000) == z3.unsat:
                 v = smt.Verdict("unknown", "z3", v.secs, detail="VACUOUS: the assumptions of this obligation are contradictory (engine/contract error)")
-        r = Result(f"{target}.{name}", v, tag, dict(meta or {}))
+        meta = dict(meta or {})
         if v.status != "proved" and "CANARY" not in name:
+            hv = sorted(n for n in _consts(list(pc) + [toz3(goal)]) if "!loop" in n)
+            if hv:
+                # the failed proof involves a local that is assigned in a loop body and carried out of it without being described by the loop invariant:
+                # that is "needs contract" (undecided), never a violation - the property's bounded harness, if any, decides
+                v = smt.Verdict("unknown", "z3", v.secs, detail="NEEDS-CONTRACT: depends on loop-carried local(s) " + ", ".join(h.split("!")[0] for h in hv) + " not described by the loop invariant")
+                meta["needs_contract"] = True
+        r = Result(f"{target}.{name}", v, tag, meta)
+        if v.status != "proved" and "CANARY" not in name and not meta.get("needs_contract"):
             k = excluded_by_known(r.name, tag, pc, toz3(goal), timeout_ms)
             if k is not None: r.meta["known_finding"] = k.get("id") or k.get("what_fails"); r.meta["known_restricted"] = k["_restricted"]
         if v.status != "proved" or len(results) < 3:
@@ -212,6 +220,26 @@ class LoopSpec:
         # modifies: names the body may write: "self.attr" / "local"; everything written must be listed AND havoc'd (frame check)
         self.target, self.ordinal, self.havoc, self.check, self.defs, self.modifies = target, ordinal, havoc, check, defs, modifies
         LOOPS[(target, ordinal)] = self
+_havoc_n = [0]
+class HavocVal:
+    """a local assigned in a loop body whose value the invariant does not describe and whose sort is unknown: any use is an engine limitation"""
+    def __init__(self, name): self.name = name
+    def __repr__(self): return f"<value of '{self.name}' after a loop: not described by the invariant>"
+def _arbitrary_like(v, name):
+    _havoc_n[0] += 1; nm = f"{name}!{_havoc_n[0]}"
+    if isinstance(v, bool): return z3.Bool(nm)
+    if isinstance(v, int): return z3.Int(nm)
+    if isinstance(v, float): return z3.Real(nm)
+    if is_z3(v):
+        return z3.Const(nm, v.sort())
+    if isinstance(v, SArr):
+        sh = v.shape; probe = None
+        try: probe = v.get(tuple(z3.Int(f"%hv{i}") for i in range(v.ndim)))
+        except Exception: pass
+        srt = toz3(probe).sort() if probe is not None and (is_z3(probe) or isinstance(probe, (bool, int, float))) else z3.RealSort()
+        F = z3.Function(nm, *([z3.IntSort()] * max(v.ndim, 1)), srt)
+        return SArr(sh, (lambda idx, F=F: F(*[toz3(i) for i in idx])) if v.ndim else (lambda idx, F=F: F(z3.IntVal(0))))
+    return HavocVal(name)
 def install_loop_rule(interp, ctx_of):
     from .interp import SymRange
     from .values import BreakExc
@@ -230,17 +258,28 @@ def install_loop_rule(interp, ctx_of):
         for name, g in spec.check(ctx, env, z3.IntVal(0), q).items():
             I.obligations.append((f"loop{ordinal}.init.{name}", list(I.pc) + q.hyps, toz3(g), {}))
         mode = z3.Bool(f"loopmode!{ordinal}")
+        tnames = {x.id for x in ast.walk(node.target) if isinstance(x, ast.Name)}
+        body_locals = sorted({x.id for st in node.body for x in ast.walk(st) if isinstance(x, ast.Name) and isinstance(x.ctx, ast.Store)} - tnames)
+        def havoc_all(kk):
+            """the invariant's own havoc, then: every OTHER local the body assigns holds an arbitrary value of its sort at the loop head / after the loop
+            (locals are not observable, so they are havoc'd rather than reported as frame violations; what matters is what the code does with them afterwards)"""
+            before = {k_: id(v) for k_, v in env.items()}
+            hs = list(spec.havoc(I, env, ctx, kk))
+            for nm in body_locals:
+                if nm in env and before.get(nm) == id(env[nm]) and not (spec.modifies is not None and nm in spec.modifies and False):
+                    env[nm] = _arbitrary_like(env[nm], f"{nm}!loop{ordinal}")
+            return hs
         if I.truth(mode):
             # 2. arbitrary iteration
             k = z3.Int(f"k!{ordinal}"); I.assume(z3.And(k >= 0, k < n))
-            for h in spec.havoc(I, env, ctx, k): I.assume(h)
+            for h in havoc_all(k): I.assume(h)
             I.assign(node.target, toz3(rng.lo) + k, env, mod)
             act = I.stack[-1] if I.stack else None
             w0 = set(act.writes) if act else set(); env0 = {k_: id(v) for k_, v in env.items()}
             def frame_check():
                 if spec.modifies is None: return
                 written = {f"self.{a}" for (_, lbl, a) in (act.writes - w0)} if act else set()
-                written |= {k_ for k_, v in env.items() if env0.get(k_) != id(v)}
+                # (locals are havoc'd, see havoc_all; the frame obligation is about object state)
                 extra = sorted(x for x in written if x not in spec.modifies and x != getattr(node.target, "id", None))
                 I.obligations.append((f"loop{ordinal}.frame", list(I.pc), z3.BoolVal(not extra), {"unlisted_writes": extra}))
             try:
@@ -257,7 +296,7 @@ def install_loop_rule(interp, ctx_of):
         else:
             # 3. exit without break after n trips
             I.assume(n >= 0)
-            for h in spec.havoc(I, env, ctx, n): I.assume(h)
+            for h in havoc_all(n): I.assume(h)
             I.exec_block(node.orelse, env, mod)
             return
     interp.loop_rule = rule
